@@ -30,6 +30,7 @@ Inputs ==
   \cup {[k |-> "S1F13"]}
   \cup {[k |-> "S1F14", ack |-> a] : a \in {0, 1, 256, 257}}    \* 256: COMMACK item of length 0, 257: two bytes 00 00 -- neither is COMMACK = 0
   \cup {[k |-> "Other", w |-> w] : w \in BOOLEAN}
+  \cup {[k |-> "S1F14AtT3", ack |-> 0]}     \* the peer's accepting S1F14 is handled while the reply timer of the same attempt expires
 
 (* feasibility is decided by harness facts only (enabled flag, link)                             *)
 Feasible(s, i) ==
@@ -39,6 +40,7 @@ Feasible(s, i) ==
     [] i.k = "LinkUp" -> s.en /\ s.link = "down"
     [] i.k = "LinkLost" -> s.link = "up"
     [] i.k = "Timer" -> s.cm \in {"WAIT_CRA", "WAIT_DELAY"}
+    [] i.k = "S1F14AtT3" -> s.cm = "WAIT_CRA" /\ s.link = "up"
     [] OTHER -> s.link = "up"
 
 Eff(s, i) ==
@@ -82,6 +84,10 @@ Eff(s, i) ==
            [] s.cm = "WAIT_CRA" /\ i.ack >= 256 ->     \* COMMACK item malformed: refused, or ignored like no answer (T3 runs on) -- never accepted
                 One([s EXCEPT !.cm = "WAIT_DELAY"], Quiet) \cup One(s, Quiet)
            [] OTHER -> One(s, Quiet)
+    [] i.k = "S1F14AtT3" ->
+         \* either order of the two events: the answer first (established; the timer is cancelled or finds nothing to do), or the
+         \* expiry first (the attempt counts as unanswered, the late S1F14 is ignored in WAIT_DELAY) -- nothing in between
+         One([s EXCEPT !.cm = "COMMUNICATING"], O(<<>>, {}, 1, 0, "-")) \cup One([s EXCEPT !.cm = "WAIT_DELAY"], O(<<>>, {}, 0, 0, "T3"))
     [] i.k = "Other" ->
          IF s.cm = "COMMUNICATING"
            THEN One(s, O(<<>>, {F(1, 2, FALSE, "echo", 9)}, 0, 1, "-"))      \* reply discipline itself: C08
